@@ -6,10 +6,12 @@ package main
 
 import (
 	"encoding/json"
+	"errors"
 	"flag"
 	"fmt"
 	"os"
 	"os/exec"
+	"path/filepath"
 	"sort"
 	"strings"
 	"sync"
@@ -23,6 +25,7 @@ import (
 
 	"verif/engine/ev"
 	"verif/engine/explore"
+	"verif/engine/harvest"
 	"verif/engine/par"
 )
 
@@ -32,7 +35,7 @@ const (
 	seqC = 6
 )
 
-var opNames = []string{"PushAmid", "PushAfin", "PushBmid", "PushAeoe", "Maintain", "Close", "TickMaintain", "PushAmidTs", "PushAraw"}
+var opNames = []string{"PushAmid", "PushAfin", "PushBmid", "PushAeoe", "Maintain", "Close", "TickMaintain", "PushAmidTs", "PushAraw", "PushOwn", "PushOwn2"}
 
 const (
 	oPushAmid = iota
@@ -44,6 +47,8 @@ const (
 	oTickMaintain // let the (virtual) timeout of everything buffered elapse, then Maintain
 	oPushAmidTs   // a record of event A whose kernel timestamp is decades away from the other records' (the key is the sequence)
 	oPushAraw     // Push(type, bytes) with a caller buffer that is overwritten as soon as Push has returned
+	oPushOwn      // a record opening the thread's OWN sequence (100 + 2*thread index)
+	oPushOwn2     // a second record of the thread's own sequence
 )
 
 // Program is one driver program: per thread a list of op codes.
@@ -52,6 +57,11 @@ type Program struct {
 	MaxInFlight int
 	Stream      int // 0 passive, 1 RC->Maintain, 2 RC->Push fresh, 3 EventsLost->Maintain, 4 RC->Close
 	Timeout     int // 0: effectively infinite; n: n ticks (programs with TickMaintain)
+	// PileUp: not the schedule tree but the pile-up schedules (every thread driven to the same
+	// scheduling point, for every point, then released in three orders): k-way pile-ups for k threads
+	PileUp bool
+	// CloserStream: the Stream also has Close/Flush/Sync methods that fail (sinks often do)
+	CloserStream bool
 }
 
 func (p Program) String() string {
@@ -63,7 +73,14 @@ func (p Program) String() string {
 		}
 		ts = append(ts, strings.Join(os, ";"))
 	}
-	return fmt.Sprintf("maxInFlight=%d stream=%d timeout=%d threads=[%s]", p.MaxInFlight, p.Stream, p.Timeout, strings.Join(ts, " | "))
+	x := ""
+	if p.PileUp {
+		x += " pile-up-schedules"
+	}
+	if p.CloserStream {
+		x += " stream-with-failing-Close"
+	}
+	return fmt.Sprintf("maxInFlight=%d stream=%d timeout=%d%s threads=[%s]", p.MaxInFlight, p.Stream, p.Timeout, x, strings.Join(ts, " | "))
 }
 
 type pushed struct {
@@ -225,8 +242,12 @@ func (h *harness) pushRaw(seq uint32, typ uint16, nested bool) {
 	h.mu.Unlock()
 }
 
-func (h *harness) do(op int, nested bool) {
+func (h *harness) do(op int, nested bool) { h.doT(0, op, nested) }
+
+func (h *harness) doT(ti int, op int, nested bool) {
 	switch op {
+	case oPushOwn, oPushOwn2:
+		h.push(uint32(100+2*ti), 1300, nested)
 	case oPushAmidTs:
 		h.pushTs(seqA, 1300, nested, time.Unix(1700000077, 0).UTC())
 	case oPushAraw:
@@ -269,13 +290,24 @@ func (h *harness) do(op int, nested bool) {
 	}
 }
 
+// closerStream is the harness Stream with the optional methods real sinks have; they fail.
+type closerStream struct{ *harness }
+
+func (closerStream) Close() error { return errors.New("sink: close failed") }
+func (closerStream) Flush() error { return errors.New("sink: flush failed") }
+func (closerStream) Sync() error  { return errors.New("sink: sync failed") }
+
 func newHarness(p Program) *harness {
 	h := &harness{p: p, byPtr: map[*auparse.AuditMessage]*pushed{}}
 	to := 1000 * time.Hour
 	if p.Timeout > 0 {
 		to = time.Duration(p.Timeout) * time.Millisecond
 	}
-	r, err := libaudit.NewReassembler(p.MaxInFlight, to, h)
+	var st libaudit.Stream = h
+	if p.CloserStream {
+		st = closerStream{h}
+	}
+	r, err := libaudit.NewReassembler(p.MaxInFlight, to, st)
 	if err != nil {
 		panic(err)
 	}
@@ -289,7 +321,7 @@ func (h *harness) Body(x *sched.Exec) {
 		prog := prog
 		x.Go(fmt.Sprintf("t%d", i), func() {
 			for _, op := range prog {
-				h.do(op, false)
+				h.doT(i, op, false)
 			}
 		})
 	}
@@ -442,6 +474,20 @@ func programs(tier string) []Program {
 			}
 		}
 	}
+	// k threads each opening its own sequence (then adding a second record), explored with the pile-up
+	// schedules: k callers between the same two steps of PushMessage at once, k = 5 ... 13
+	for _, mk := range [][2]int{{0, 5}, {0, 8}, {1, 9}, {2, 13}, {1, 5}} {
+		var ths [][]int
+		for i := 0; i < mk[1]; i++ {
+			ths = append(ths, []int{oPushOwn, oPushOwn2})
+		}
+		out = append(out, Program{Threads: ths, MaxInFlight: mk[0], PileUp: true})
+		out = append(out, Program{Threads: append(append([][]int{}, ths[:mk[1]-1]...), []int{oMaintain, oClose}), MaxInFlight: mk[0], PileUp: true})
+	}
+	// Close racing with Close / Push / Maintain on a Stream that also has (failing) Close/Flush/Sync methods
+	for _, ths := range [][][]int{{{oClose}, {oClose}}, {{oPushAmid, oClose}, {oClose}}, {{oPushAmid}, {oMaintain, oClose}}, {{oClose, oClose}, {oPushAfin}}, {{oClose}, {oClose}, {oClose}}} {
+		out = append(out, Program{Threads: ths, MaxInFlight: 1, CloserStream: true})
+	}
 	if tier == "thorough" {
 		// three threads, at most 4 ops in total (1+1+1 and 1+1+2)
 		for _, m := range []int{0, 1, 2} {
@@ -513,7 +559,12 @@ func runJob(j Job) []ProgResult {
 		// whole tree if it is small, else the preemption bound (complete within it)
 		e := &explore.Explorer{Bound: -1, MaxExec: j.MaxExec, Horizon: 5000,
 			NewHarness: func() explore.Harness { return newHarness(p) }}
-		r := e.Explore()
+		var r *explore.Result
+		if p.PileUp {
+			r = e.PileUps()
+		} else {
+			r = e.Explore()
+		}
 		if r.Capped {
 			b := j.Bound
 			if len(p.Threads) > 2 && b > 2 {
@@ -690,6 +741,38 @@ func check(prop, tier, raceBin string) int {
 			}
 		}
 	})
+	// amounts: "every message delivered exactly once" with MANY events in flight, one goroutine: n incomplete
+	// events of which one near the head arrives last, then Close - for n = 3000 and just above (twice) every
+	// integer constant 64..10000 of the tree's reassembler.go (look-back windows, cut-over points ...)
+	vtime.Install()
+	ns := []int{3000}
+	hv := harvest.Files([]string{filepath.Join(ev.Repo(), "reassembler.go")}, harvest.Options{})
+	for _, N := range hv.Thresholds(16, 10000) {
+		ns = append(ns, int(N)+5, 2*int(N)+20)
+	}
+	for _, n := range ns {
+		h := newHarness(Program{MaxInFlight: 2*n + 100})
+		func() {
+			defer func() {
+				if p := recover(); p != nil {
+					run.Report(ev.Violation{Sig: prop + " panic", What: fmt.Sprintf("sequential scale history (n=%d incomplete events, number 5 arriving last, Close) panicked: %v", n, p), Replay: map[string]interface{}{"n": n}})
+				}
+			}()
+			for i := 0; i < n; i++ {
+				if i != 5 {
+					h.push(uint32(1000+i), 1300, true)
+				}
+			}
+			h.push(1005, 1300, true)
+			_, fs := h.Finish(nil)
+			for _, f := range fs {
+				run.Report(ev.Violation{Sig: prop + " " + f.Sig, What: f.What + fmt.Sprintf(" | sequential scale history: n=%d incomplete events, number 5 arriving last, Close", n), Replay: map[string]interface{}{"n": n}})
+			}
+		}()
+		run.Add("traces_validated_against_impl", 1)
+		run.Add("transitions", int64(n))
+	}
+	run.Set("sequential_scale_histories", ns)
 	run.Set("exhaustive", allExhausted)
 	run.Set("preemption_bound", fmt.Sprintf("whole schedule tree where it has at most %d schedules (programs_explored_unbounded), otherwise every schedule with at most %d preemptions (programs_explored_to_preemption_bound_only)", maxExec, bound))
 	if len(capped) > 0 {
